@@ -28,7 +28,7 @@ def run(tier):
                        'BR_SSL_CLOSED alone when closed and sets each of the four flags iff the matching *_buf call returns non-NULL; every *_buf '
                        'returns NULL once failed; the application-data gates of sendapp/recvapp; the half-duplex (shared buffer) mode switch is '
                        'the first effect of recvrec_ack and sendpld_ack on every path; br_ssl_engine_close releases unread application data before it '
-                       'enters the closure handshake (afterwards the record could never be released and no operation would be offered). NOT decided: the pointer/length arithmetic of the six '
+                       'enters the closure handshake (afterwards the record could never be released and no operation would be offered); the transition table of the I/O machine (sa/engio.py, shared with C01: empty records return to ready, consumed windows are recycled, full windows are flushed, sent records open a new one). NOT decided: the pointer/length arithmetic of the six '
                        'buffer registers (run-time invariants).',
                        trusted=['clang/opt 14', 'debug-info struct layouts', 'whole-program store scan'])
     u = build.load_unit(S)
@@ -168,4 +168,8 @@ def run(tier):
     chk.floor('obligations', len(chk.obls), 30)
     from . import c19
     c19.close_order(chk)
+    # the I/O transition table (shared with C01): a dropped transition leaves the engine open with nothing on offer
+    from .. import engio, oblig as _ob
+    _ob.run_obligations(chk, engio.progress_obligations())
+    engio.ready_state(chk)
     return chk.finish()
